@@ -398,7 +398,7 @@ pub fn systematic_scripts(max_len: usize, seeds: u64) -> impl Iterator<Item = Sc
                 let mut replies = Vec::new();
                 let mut k = 0;
                 let steps = digits.iter().map(|d| atom(*d, &mut k, &mut replies)).collect();
-                Script { sched_seed: seed + 1, seg, replies, steps, max_write: None, picture: None, broken_pipe: true, greeting: None, lazy_events: false, version: None, vectored: false, events_polled_last: false }
+                Script { sched_seed: seed + 1, seg, replies, steps, max_write: None, picture: None, broken_pipe: true, greeting: None, lazy_events: false, version: None, vectored: false, events_polled_last: false, error_kind: 0, real_ms_per_advance: 0, noise_connection: false }
             })
         })
     })
@@ -449,7 +449,7 @@ fn slow_consumer_part() -> Box<dyn crate::core::Part> {
                             steps.push(Step::Advance(101));
                         }
                     }
-                    Script { sched_seed: seed, seg: sim::SegPattern::Whole, replies, steps, max_write: None, picture: None, broken_pipe: true, greeting: None, lazy_events: true, version: None, vectored: false, events_polled_last: false }
+                    Script { sched_seed: seed, seg: sim::SegPattern::Whole, replies, steps, max_write: None, picture: None, broken_pipe: true, greeting: None, lazy_events: true, version: None, vectored: false, events_polled_last: false, error_kind: 0, real_ms_per_advance: 0, noise_connection: false }
                 })
                 .boxed()
         }),
@@ -480,7 +480,7 @@ pub fn c01(_tier: Tier) -> Property {
                 let obs = sim::run(s);
                 judge_c01(s, &obs)
             }),
-        }), systematic_part(judge_c01), long_sessions_part(judge_c01), crate::fuzzops::corpus_part("fuzz_corpus", "fz_sim", "C01", crate::fuzzops::sim_target)],
+        }), systematic_part(judge_c01), long_sessions_part(judge_c01), wall_clock_part(judge_c01), crate::fuzzops::corpus_part("fuzz_corpus", "fz_sim", "C01", crate::fuzzops::sim_target)],
         assumptions: vec![
             "schedules are those of a current-thread tokio runtime with a paused clock and seeded select! (tokio channels and timers trusted)",
             "the simulated MPD answers each token from the case's reply table",
@@ -520,6 +520,46 @@ pub fn long_sessions_part(judge: fn(&Script, &Observation) -> CaseResult) -> Box
             let mut r = judge(s, &obs);
             r.class_if(obs.requests.len() >= 128, "session_with_128plus_requests");
             r
+        }),
+    })
+}
+
+/// Real time passes too (the simulator's clock is virtual; code that reads the wall clock must not
+/// behave differently when a reply takes real time to arrive).
+pub fn wall_clock_part(judge: fn(&Script, &Observation) -> CaseResult) -> Box<dyn crate::core::Part> {
+    Box::new(RandomPart {
+        name: "wall_clock",
+        rule: "proptest: short histories of the part 'histories' in which every Advance step also lets real time pass (quick: up to 130 ms per step; thorough: a quarter of the cases up to 5.3 s per step, with an Advance of 6 s before a request), replies withheld across such steps; same judge. non-trivial as there",
+        cases: (32, 192),
+        strategy: Box::new(|t| {
+            (simgen::script(2, 2, 5), any::<u16>(), prop::bool::weighted(if t == crate::core::Tier::Thorough { 0.25 } else { 0.0 }))
+                .prop_map(|(mut s, at, long)| {
+                    s.real_ms_per_advance = if long { 5_300 } else { 130 };
+                    // a reply that takes (real and virtual) time: hold, request, wait, release
+                    let i = crate::core::pick_idx(at, s.steps.len() + 1);
+                    let tok = "rwcx0".to_string();
+                    s.replies.push((tok.clone(), sim::ReplySpec::Ok { fields: vec![], binary: None }));
+                    let block = vec![
+                        Step::Advance(if long { 6_000 } else { 150 }),
+                        Step::Hold,
+                        Step::Issue { caller: 3, req: Req::Raw(tok) },
+                        Step::Advance(120),
+                        Step::ReleaseAll,
+                        Step::Advance(101),
+                    ];
+                    for (k, b) in block.into_iter().enumerate() {
+                        s.steps.insert(i + k, b);
+                    }
+                    // keep the real time per case bounded
+                    let mut advances = 0;
+                    s.steps.retain(|x| !matches!(x, Step::Advance(_)) || { advances += 1; advances <= 8 });
+                    s
+                })
+                .boxed()
+        }),
+        check: Box::new(move |s: &Script| {
+            let obs = sim::run(s);
+            judge(s, &obs)
         }),
     })
 }
@@ -577,7 +617,7 @@ pub fn c05(_tier: Tier) -> Property {
                 let obs = sim::run(s);
                 judge_c05(s, &obs)
             }),
-        }), systematic_part(judge_c05), legal_under_faults_part(), long_sessions_part(judge_c05), crate::fuzzops::corpus_part("fuzz_corpus", "fz_sim", "C05", crate::fuzzops::sim_target)],
+        }), systematic_part(judge_c05), legal_under_faults_part(), long_sessions_part(judge_c05), wall_clock_part(judge_c05), crate::fuzzops::corpus_part("fuzz_corpus", "fz_sim", "C05", crate::fuzzops::sim_target)],
         assumptions: vec!["the server model implements MPD's idle rules (client/Process.cxx, client/Idle.cxx): noidle outside idle is ignored without reply, anything but noidle during idle is a protocol violation"],
         selftest: None,
     }
